@@ -518,3 +518,102 @@ func init() {
 	Registry["C14"] = treeFamily(genC14)
 	Registry["C16"] = treeFamily(genC16)
 }
+
+// ---------------------------------------------------------------- C08
+
+// The operation alphabet of C08; orders up to length 6 are enumerated
+// systematically by the run index (6^6 orders), schedules inside are random.
+var c08ops = []string{"release", "refilter-equal", "refilter-new", "write", "mknode", "settle"}
+
+func genC08(g GenCtx) interface{} {
+	sc, rng := baseTree(g)
+	sc.HoldFirstList = true
+	sc.PeriodMs = pickInt(rng, 0, 0, 300)
+	sc.NoOverflow = true
+	nkeys := 1 + rng.Intn(4)
+	sc.Init = genInit(rng, nkeys)
+	static := rng.Intn(2) == 0
+	sc.Static = static
+	fail := g.Idx%7 == 6 // the first list fails in one run out of seven
+	b := &treeBuilder{sc: sc}
+	// a fixed skeleton with every kind, immediate and deferred, at depth <= 3
+	b.add(-1, "sub", TAct{Reader: "eager"})
+	f0 := b.add(-1, "subf", TAct{Filter: randFilter(rng), Reader: "eager"})
+	d0 := b.add(-1, "subff", TAct{Reader: "eager"})
+	c1 := b.add(-1, pick(rng, "clonef", "cloneff", "clone"), TAct{Filter: randFilter(rng)})
+	f2 := b.add(c1, "subf", TAct{Filter: randFilter(rng), Reader: "eager"})
+	c2 := b.add(c1, pick(rng, "cloneff", "clonef"), TAct{Filter: randFilter(rng)})
+	b.add(c2, pick(rng, "sub", "subff"), TAct{Reader: "eager"})
+	_ = f0
+	_ = d0
+	_ = f2
+	cur := map[int]world.FilterSpec{}
+	for i, a := range sc.Acts {
+		if a.Op == "mknode" {
+			cur[i] = a.Filter
+			if a.Kind == "subff" || a.Kind == "cloneff" {
+				cur[i] = world.FilterSpec{Op: "all"}
+			}
+		}
+	}
+	// the order: digits of the run index in base 6
+	k := g.Idx / 7
+	var order []string
+	for i := 0; i < 6; i++ {
+		order = append(order, c08ops[k%6])
+		k /= 6
+	}
+	released := false
+	target := 0
+	for _, op := range order {
+		switch op {
+		case "release":
+			if !released {
+				sc.Acts = append(sc.Acts, TAct{Op: "release", Block: fail})
+				released = true
+			}
+		case "refilter-equal", "refilter-new":
+			if len(b.filtered) == 0 {
+				continue
+			}
+			n := b.filtered[target%len(b.filtered)]
+			target++
+			f := cur[n]
+			if op == "refilter-new" {
+				f = randFilter(rng)
+				cur[n] = f
+			}
+			sc.Acts = append(sc.Acts, TAct{Op: "refilter", Node: n, Filter: f, Async: rng.Intn(3) == 0})
+		case "write":
+			if !static || !released {
+				// static runs keep the server unchanged once it could matter
+				sc.Acts = append(sc.Acts, writeAct(rng, nkeys))
+			}
+		case "mknode":
+			mixedNode(b, rng, 3)
+		case "settle":
+			sc.Acts = append(sc.Acts, TAct{Op: "settle"})
+		}
+	}
+	if !released {
+		sc.Acts = append(sc.Acts, TAct{Op: "release", Block: fail})
+	}
+	// afterwards every deferred node gets a filter (3/4) and traffic resumes
+	for _, f := range b.filtered {
+		if (b.kinds[f] == "subff" || b.kinds[f] == "cloneff") && rng.Intn(4) > 0 {
+			sc.Acts = append(sc.Acts, TAct{Op: "refilter", Node: f, Filter: randFilter(rng)})
+		}
+	}
+	sc.Acts = append(sc.Acts, TAct{Op: "check"})
+	sc.Acts = append(sc.Acts, TAct{Op: "unfreeze"})
+	for i := rng.Intn(6); i > 0; i-- {
+		sc.Acts = append(sc.Acts, writeAct(rng, nkeys))
+	}
+	sc.Acts = append(sc.Acts, TAct{Op: "check"})
+	sc.Sim.Strategy.StallPermille = 0
+	return sc
+}
+
+func init() {
+	Registry["C08"] = treeFamily(genC08)
+}
